@@ -4,6 +4,7 @@ pub mod cb;
 pub mod collect;
 pub mod events;
 pub mod genr;
+pub mod lay;
 pub mod probe;
 pub mod props;
 pub mod run;
